@@ -185,14 +185,56 @@ def resolution_from_affine(repo, col):
     bad = []
     src_ok = False
     for h in helper_closure(fn):
+        hdefs = local_defs(h.node)
+        # names that hold header zooms / pixdim values, and what is computed
+        # from them
+        tainted = set()
+        for name, ds in hdefs.items():
+            for d in ds:
+                if d.value is not None and (
+                        "get_zooms" in norm(d.value) or
+                        "pixdim" in norm(d.value)):
+                    tainted.add(name)
+        for _ in range(4):
+            for name, ds in hdefs.items():
+                if name in tainted:
+                    continue
+                if any(d.value is not None and names_in(d.value) & tainted
+                       for d in ds):
+                    tainted.add(name)
+
+        def used_for_output(node_):
+            """The header value reaches what the function hands out: a
+            return value, or the text of the info / transform."""
+            for x in ast.walk(h.node):
+                if isinstance(x, ast.Return) and x.value is not None and (
+                        names_in(x.value) & tainted or any(
+                            y is node_ for y in ast.walk(x.value))):
+                    return True
+                if isinstance(x, ast.JoinedStr) and (
+                        any(isinstance(v, ast.FormattedValue) and (
+                            names_in(v.value) & tainted or
+                            any(y is node_ for y in ast.walk(v.value)))
+                            for v in x.values)) and \
+                        "resolution" in norm(x):
+                    return True
+                if isinstance(x, ast.Dict) and any(
+                        isinstance(k, ast.Constant) and k.value == "resolution"
+                        and (names_in(v) & tainted or
+                             any(y is node_ for y in ast.walk(v)))
+                        for k, v in zip(x.keys, x.values)):
+                    return True
+            return False
         for c in calls_in(h.node):
             nm = call_name(c) or ""
-            if nm.endswith("get_zooms") or "pixdim" in norm(c):
+            if (nm.endswith("get_zooms") or "pixdim" in norm(c)) and \
+                    used_for_output(c):
                 bad.append((h, c))
             if nm.endswith("voxel_sizes"):
                 src_ok = True
         for n in walk_local(h.node):
-            if isinstance(n, ast.Subscript) and "pixdim" in norm(n):
+            if isinstance(n, ast.Subscript) and "pixdim" in norm(n) and \
+                    used_for_output(n):
                 bad.append((h, n))
     ok = src_ok and not bad
     col.add(rule, fn, "voxel size = nibabel.affines.voxel_sizes(affine)",
